@@ -10,3 +10,5 @@ import JivaVerif.Properties.C10
 import JivaVerif.Properties.C11
 import JivaVerif.Properties.C16
 import JivaVerif.Properties.Controller
+import JivaVerif.Properties.C12
+import JivaVerif.Properties.C17
